@@ -17,6 +17,12 @@ import (
 func init() { register("nestedfault", cmdNestedFault) }
 
 func cmdNestedFault(a Args) {
+	if a.Mode != "" && a.Mode != "legacy" {
+		// every request through a child handle / every attach and detach, with a transient fault at
+		// each storage call (nestedfault_ops.go)
+		cmdNestedFaultOps(a)
+		return
+	}
 	rep := NewReport(a.Prop, a.Seed)
 	rep.Rule = "parent array spanning several slabs (or a multi-slab map) holding a nested child array (inlined or not) at a random position; commit; drop cache; obtain the child through the parent; drop cache again; arm the k-th ledger read to fail (k = 0..3); mutate the child through its handle (the propagation to the parent has to read a parent slab from the ledger); then, without faults, mutate the child again through the SAME handle: the second mutation must be visible through the parent, VerifyArray/VerifyMap must pass, the write set must be non-empty, and after commit + reopen in a fresh storage the parent must show the child's final content. non-trivial = the armed fault actually fired"
 	rng := NewRng(a.Seed)
